@@ -37,6 +37,10 @@ def chunks (n : Nat) (bs : Bytes) : Nat → List Bytes × Bytes
 
 def blocksOf (n : Nat) (bs : Bytes) : List Bytes × Bytes := chunks n bs bs.length
 
+/-- `np.frombuffer(bs, np.uint64)` / `np.uint32`: the complete little-endian words of `bs` -/
+def frombuffer64 (bs : Bytes) : List UInt64 := (blocksOf 8 bs).1.map le64
+def frombuffer32 (bs : Bytes) : List UInt32 := (blocksOf 4 bs).1.map le32
+
 namespace Impl
 open Gen
 
